@@ -8,9 +8,11 @@ import (
 	"fmt"
 	"sort"
 	"strings"
+	"sync"
 	"testing"
 
 	"verif/kit"
+	"verif/schedx"
 
 	"github.com/mycoria/mycoria/frame"
 	"github.com/mycoria/mycoria/peering"
@@ -54,6 +56,14 @@ type execution struct {
 }
 
 func runSchedule(sc schedScenario, choices []int) *execution {
+	ex, bodies := prepareSchedule(sc)
+	ex.res = sched.Run(bodies, choices, 4000)
+	return ex
+}
+
+// prepareSchedule builds fresh sessions and the thread bodies.
+func prepareSchedule(sc schedScenario) (*execution, []func()) {
+	var hmu sync.Mutex // harness bookkeeping (real mutex, no scheduling point)
 	a, err := kit.NewNode(kit.NodeOpts{Name: "A", ID: pool[0], StateOnly: true})
 	if err != nil {
 		panic(err)
@@ -130,14 +140,15 @@ func runSchedule(sc schedScenario, choices []int) *execution {
 						s.key = "link:" + kit.Hash(lh.OutKey())
 					}
 				}
+				hmu.Lock()
 				s.order = order
 				order++
 				ex.frames = append(ex.frames, s)
+				hmu.Unlock()
 			}
 		})
 	}
-	ex.res = sched.Run(bodies, choices, 4000)
-	return ex
+	return ex, bodies
 }
 
 // epochOf determines the key epoch a frame was sealed in from its sequence
@@ -370,4 +381,33 @@ func runSchedTier(t *testing.T, rep *kit.Report, env kit.Env) {
 		rep.Outcome(fmt.Sprintf("%s: %d distinct sequence-number assignments", sc.name, len(outcomes)))
 	}
 	rep.Bounds["determinism_gate_double_runs"] = gateRuns
+}
+
+// TestC15Race: the concurrent Seal scenarios on free-running goroutines under
+// the race detector (the statement quantifies over "all goroutine interleavings
+// of concurrent Seal calls on one session (race-detector build)"); same oracles.
+// Supporting evidence next to the exhaustive schedule enumeration.
+func TestC15Race(t *testing.T) {
+	env := kit.GetEnv()
+	rep := kit.NewReport("C15", env)
+	defer func() { _ = rep.Finish(env) }()
+	iters := 150
+	if env.Thorough() {
+		iters = 2000
+	}
+	var n int64
+	for _, sc := range schedScenarios(env.Thorough()) {
+		for i := 0; i < iters && !env.Expired(); i++ {
+			ex, bodies := prepareSchedule(sc)
+			ex.res.Panics = schedx.FreeRun(bodies)
+			sub := kit.NewReport("C15", env)
+			checkExecution(sub, sc, ex, nil)
+			for _, v := range sub.Violations {
+				rep.Violate("free-running/"+v.Key, v.Detail, nil)
+			}
+			n++
+		}
+	}
+	rep.Add(n, 0, 0, 0)
+	rep.OutcomeN("free-running race-detector pass [iterations]", n)
 }
